@@ -947,6 +947,10 @@ func (g *gRun) exportPoint() {
 	}
 	o := g.e.ExportImport()
 	g.out.Count("export.points")
+	g.out.CountN("export.header_context.modules", o.HdrChecked)
+	for _, m := range o.HdrDiffers {
+		g.out.Count("export.header_context.differs." + m)
+	}
 	for _, l := range pre {
 		g.out.Op("L %s", l)
 	}
